@@ -1,6 +1,7 @@
 package frost
 
 import (
+	"errors"
 	"github.com/taurusgroup/multi-party-sig/internal/round"
 	"github.com/taurusgroup/multi-party-sig/pkg/math/curve"
 	"github.com/taurusgroup/multi-party-sig/pkg/party"
@@ -59,6 +60,11 @@ func KeygenTaproot(selfID party.ID, participants []party.ID, threshold int) prot
 
 // Refresh
 func Refresh(config *Config, participants []party.ID) protocol.StartFunc {
+	if config == nil || config.PrivateShare == nil || config.PublicKey == nil || config.VerificationShares == nil {
+		return func([]byte) (round.Session, error) {
+			return nil, errors.New("frost.Refresh: config is nil or incomplete")
+		}
+	}
 	return keygen.StartKeygenCommon(false, config.Curve(), participants, config.Threshold, config.ID, config.PrivateShare, config.PublicKey, config.VerificationShares.Points)
 }
 
@@ -68,6 +74,11 @@ func Refresh(config *Config, participants []party.ID) protocol.StartFunc {
 //
 // See: https://github.com/bitcoin/bips/blob/master/bip-0340.mediawiki#specification
 func RefreshTaproot(config *TaprootConfig, participants []party.ID) protocol.StartFunc {
+	if config == nil || config.PrivateShare == nil || config.VerificationShares == nil {
+		return func([]byte) (round.Session, error) {
+			return nil, errors.New("frost.RefreshTaproot: config is nil or incomplete")
+		}
+	}
 	publicKey, err := curve.Secp256k1{}.LiftX(config.PublicKey)
 	if err != nil {
 		return func([]byte) (round.Session, error) {
@@ -93,7 +104,6 @@ func RefreshTaproot(config *TaprootConfig, participants []party.ID) protocol.Sta
 // This protocol merges Figures 2 and 3 from the Frost paper:
 //   https://eprint.iacr.org/2020/852.pdf
 //
-//
 // We merge the pre-processing and signing protocols into a single signing protocol
 // which doesn't require any pre-processing.
 //
@@ -111,6 +121,18 @@ func Sign(config *Config, signers []party.ID, messageHash []byte) protocol.Start
 //
 // See: https://github.com/bitcoin/bips/blob/master/bip-0340.mediawiki
 func SignTaproot(config *TaprootConfig, signers []party.ID, messageHash []byte) protocol.StartFunc {
+	if config == nil || config.PrivateShare == nil || config.VerificationShares == nil {
+		return func([]byte) (round.Session, error) {
+			return nil, errors.New("frost.SignTaproot: config is nil or incomplete")
+		}
+	}
+	for _, v := range config.VerificationShares {
+		if v == nil {
+			return func([]byte) (round.Session, error) {
+				return nil, errors.New("frost.SignTaproot: config holds a nil verification share")
+			}
+		}
+	}
 	publicKey, err := curve.Secp256k1{}.LiftX(config.PublicKey)
 	if err != nil {
 		return func([]byte) (round.Session, error) {
